@@ -265,6 +265,8 @@ class Interp:
         out = np.empty((nb, na, nbb), dtype=object)
         zero = self.dom.const(0)
         iszero = self.dom.is_zero
+        # domains that abstract products (Z3Domain(linearize=True) with linearize_dot) get their own mul
+        mul = self.dom.mul if getattr(self.dom, "linearize_dot", False) else (lambda u, v: u * v)
         for b in range(nb):
             for i in range(na):
                 row = A3[b, i]
@@ -274,7 +276,7 @@ class Interp:
                     for k in nz:
                         y = B3[b, k, j]
                         if not iszero(y):
-                            s = s + row[k] * y
+                            s = s + mul(row[k], y)
                     out[b, i, j] = s
         return out.reshape(bshape + fas + fbs)
 
